@@ -333,7 +333,6 @@ func Invoke(inv Invocation) int {
 			stderrBuf := &bytes.Buffer{}
 			originalDir := inv.Dir
 			inv.Dir = magefilesDir // preemptive assignment
-			removeStaleMainfile(inv.Dir)
 			// TODO: Remove this fallback and the above Magefiles invocation when the bw compatibility is removed.
 			files, err := Magefiles(originalDir, inv.GOOS, inv.GOARCH, inv.GoCmd, stderrBuf, false, inv.Debug)
 			if err == nil {
@@ -342,6 +341,11 @@ func Invoke(inv Invocation) int {
 						"current directory, in future versions the files will be ignored in favor of the directory")
 					inv.Dir = originalDir
 				}
+			}
+			if inv.Dir == magefilesDir {
+				// only in the directory this invocation is going to use: a mage
+				// running in the magefiles directory may be using its own
+				removeStaleMainfile(inv.Dir)
 			}
 		}
 	}
